@@ -1344,8 +1344,13 @@ class Message(ABC):
                 signbit = 1 << (bits - 1)
                 value = int((value ^ signbit) - signbit)
             elif meta.proto_type in (TYPE_SINT32, TYPE_SINT64):
+                if meta.proto_type == TYPE_SINT32:
+                    # 32-bit types keep the low 32 bits of the varint
+                    value &= 0xFFFFFFFF
                 # Undo zig-zag encoding
                 value = (value >> 1) ^ (-(value & 1))
+            elif meta.proto_type == TYPE_UINT32:
+                value &= 0xFFFFFFFF
             elif meta.proto_type == TYPE_BOOL:
                 # Booleans use a varint encoding, so convert it to true/false.
                 value = value > 0
